@@ -12,7 +12,8 @@
    Modelled, not verified: torch.linspace (element i = start + (end-start) i/(steps-1)),
    torch.logspace (10^linspace), torch.meshgrid(indexing='ij') + flatten (= mesh_flat below),
    torch.rand in [0,1), torch.randperm a permutation, torch.randint(0,2) in {0,1},
-   torch.normal(mean, std) = mean + std * z, atan2 in (-pi, pi], acos defined on [-1,1]. *)
+   torch.normal(mean, std) = mean + std * z, atan2 in (-pi, pi], acos defined on [-1,1],
+   torch.clamp (= clamp below). *)
 From Coq Require Import Reals List String Bool Arith.
 From ND.lib Require Import Expr.
 Import ListNotations.
@@ -27,17 +28,23 @@ Definition v_z0 := 5%nat.     (* standard normal draw of torch.normal *)
 Definition v_s0 := 6%nat.     (* torch.randint(0, 2) draws *)
 Definition v_s1 := 7%nat.
 Definition v_atan := 8%nat.   (* the value of torch.atan2(aux_0, aux_1) *)
+Definition v_denom := 9%nat.  (* the value of torch.clamp(arg, min=tiny) = Rmax arg tiny, see e_defs *)
 Definition p_a := 0%nat.      (* lower bound of the tensor's axis *)
 Definition p_b := 1%nat.      (* upper bound *)
 Definition p_n := 2%nat.      (* number of nodes along the axis, as a real *)
 Definition p_pi := 3%nat.     (* np.pi *)
+Definition p_tiny := 4%nat.   (* torch.finfo(dtype).tiny: a positive constant *)
 
 (* ---- method table *)
 Inductive gclass := G1D | G2D | G3D | GND | GSph.
 Inductive getter_kind := GetLambda | GetCallResult | GetMissing.
 Inductive mesh_kind := MeshNone | MeshIJ | MeshXY | MeshDefault | MeshOther | MeshUnflattened.
 Inductive rngcall := RRand | RNormal | RRandperm | RRandint.
-Inductive wrap := WNone | WAcos | WPhi (y x : expr).
+Inductive wrap :=
+| WNone
+| WAcos                          (* torch.acos(t_term) *)
+| WAcosClamp (lo hi : expr)      (* torch.acos(torch.clamp(t_term, lo, hi)) *)
+| WPhi (y x : expr).             (* t_term over the leaf v_atan = torch.atan2(y, x) *)
 
 Record tinfo := mk_tinfo {
   t_term : expr;          (* per-index formula (argument of acos for WAcos) *)
@@ -61,7 +68,8 @@ Record entry := mk_entry {
   e_tensors : list tinfo;
   e_mesh : mesh_kind;
   e_ctor_rng : list rngcall;     (* RNG calls made by the constructor, in order *)
-  e_call_rng : list rngcall      (* RNG calls made by each get_examples(), in order *)
+  e_call_rng : list rngcall;     (* RNG calls made by each get_examples(), in order *)
+  e_defs : list (nat * expr * expr)   (* (leaf, arg, lo): the leaf stands for torch.clamp(arg, min=lo) = Rmax arg lo *)
 }.
 
 Definition dim (c : gclass) : nat :=
@@ -71,9 +79,6 @@ Definition gclass_eqb (a b : gclass) : bool :=
   match a, b with G1D, G1D | G2D, G2D | G3D, G3D | GND, GND | GSph, GSph => true | _, _ => false end.
 
 Definition is_lambda (g : getter_kind) : bool := match g with GetLambda => true | _ => false end.
-
-(* the recorded finding F1: Generator2D(method='chebyshev2-noisy') *)
-Definition is_F1 (e : entry) : bool := gclass_eqb (e_cls e) G2D && String.eqb (e_method e) "chebyshev2-noisy".
 
 Definition tensor_ok (t : tinfo) : bool := t_len_ok t && t_rg t.
 
@@ -149,6 +154,9 @@ Fixpoint mesh_flat (axes : list (list R)) (k : nat) : list R :=
       | S k' => List.concat (repeat (mesh_flat r k') (List.length X))
       end
   end.
+
+(* ---- torch.clamp(x, lo, hi) = min(max(x, lo), hi) *)
+Definition clamp (x lo hi : R) : R := Rmin (Rmax x lo) hi.
 
 (* ---- Latin hypercube strata of [a, b] with n strata *)
 Definition in_stratum (a b : R) (n j : nat) (x : R) : Prop :=
